@@ -6,7 +6,7 @@ import random
 from .. import astx, modgen
 from ..core import REPO
 
-TIME_BUDGET = {"quick": 60, "thorough": 280}
+TIME_BUDGET = {"quick": 60, "thorough": 1100}
 META = {
     "rule": "expression grammar {Name, Attribute, Call (positional/keyword), Subscript (index, key, slice), UnaryOp(-,+,~,not), BinOp (all 13 operators), "
     "BoolOp, Compare (all 10 operators, chained), IfExp, Tuple, List, Dict (string keys incl. 'jet-pt', 'class', '', 'a b'), nested Lambda} over "
@@ -25,6 +25,7 @@ META = {
     "floor_evaluations": {"quick": 20000, "thorough": 300000},
     "floor_nontrivial": {"quick": 10000, "thorough": 200000},
     "exhaustive": {"quick": False, "thorough": True},
+    "watchdog_s": {"quick": 240, "thorough": 1500},
     "anchors": ["func_adl/type_based_replacement.py", "func_adl/object_stream.py", "func_adl/util_ast.py"],
 }
 
